@@ -139,7 +139,9 @@ def curves(draw, min_n=2, max_n=40, families=None, integer_x=False, y01=False, s
             return {'family': fam, 'pts': pts, 'trace': name}
     n = draw(_sizes(min_n, max_n))
     x = draw(xs(n, integer=integer_x or fam in ('pwl_dyadic', 'pwl_rational', 'pwl_decimal')))
-    unit = st.floats(0, 1, allow_nan=False)
+    # ordinary magnitudes only: values below 1e-6 (whose squares approach the underflow range once a
+    # 1e-9 scale is applied) are snapped to an exact zero
+    unit = st.floats(0, 1, allow_nan=False).map(lambda v: v if v >= 1e-6 else 0.0)
     if fam == 'noise':
         y = draw(st.lists(unit, min_size=n, max_size=n))
     elif fam == 'mono_dec':
